@@ -198,7 +198,9 @@ struct World {
   static std::string side(Rpc &r) {
     std::string c = "id" + std::to_string(r.id_alloc_) + " cb{"; std::vector<int> ks; for (auto &kv : r.request_callback_) ks.push_back(kv.first); std::sort(ks.begin(), ks.end());
     for (int k : ks) c += std::to_string(k) + ","; c += "} tbr{"; ks.assign(r.tobe_respond_.begin(), r.tobe_respond_.end()); std::sort(ks.begin(), ks.end()); for (int k : ks) c += std::to_string(k) + ",";
-    c += "} " + ring(r.request_timeout_) + "/" + ring(r.respond_timeout_) + " svc" + std::to_string(r.method_services_.size());
+    c += "} " + ring(r.request_timeout_) + "/" + ring(r.respond_timeout_) + " svc{"; std::vector<std::string> ms; for (auto &kv : r.method_services_) ms.push_back(kv.first + (kv.second ? "" : "!null")); std::sort(ms.begin(), ms.end());
+    for (auto &m : ms) c += m + ","; c += "}";
+    if (r.proto_) c += std::string(" wired:") + (r.proto_->recv_request_cb_ ? "q" : "-") + (r.proto_->recv_respond_cb_ ? "r" : "-") + (r.proto_->send_data_cb_ ? "s" : "-"); else c += " noproto";
     return c;
   }
   std::string canon() {
